@@ -164,6 +164,22 @@ def run(ctx) -> None:
         relate(ctx, "flat_line", "offset", c, "qartod.flat_line_test", k0, {**k0, "inp": X(off(x, c))}, ident, pc)
         relate(ctx, "flat_line", "negate", "", "qartod.flat_line_test", k0, {**k0, "inp": X(neg(x))}, ident, pc)
         relate(ctx, "flat_line", "time-shift", dt_, "qartod.flat_line_test", k0, {**k0, "tinp": TT([v + dt_ for v in tr])}, ident, pc)
+        # ---- history + shift: an axis of the same length and the same first / last instant, but sampled in a burst, is run
+        #      right after the regular one -- and then shifted: its own spacing decides, before and after the shift
+        if n >= 5:
+            ta = gen.regular(n, 10)
+            tb_ = [ta[0] + k for k in range(n - 1)] + [ta[-1]]
+            pf = {"suspect_threshold": rng.choice([2, 10, 20]), "fail_threshold": rng.choice([3, 30, 40]), "tolerance": rng.choice([0.5, 1.5, 4])}
+            client.invoke("qartod.flat_line_test", {"inp": X(x), "tinp": TT(ta), **pf}, check_purity=False)
+            k0 = {"inp": X(x), "tinp": TT(tb_), **pf}
+            relate(ctx, "flat_line", "time-shift-after-same-ends-axis", dt_, "qartod.flat_line_test", k0,
+                   {**k0, "tinp": TT([v + dt_ for v in tb_])}, ident, {**case, "t": tb_, "previous_axis": ta, "params": pf})
+            pa = {"suspect_threshold": 1.1, "fail_threshold": 0.3, "check_type": rng.choice(["std", "range"]), "test_period": 30,
+                  "min_period": rng.choice([10, 20])}
+            client.invoke("qartod.attenuated_signal_test", {"inp": X(x), "tinp": TT(ta), **pa}, check_purity=False)
+            k0 = {"inp": X(x), "tinp": TT(tb_), **pa}
+            relate(ctx, "attenuated-minperiod", "time-shift-after-same-ends-axis", dt_, "qartod.attenuated_signal_test", k0,
+                   {**k0, "tinp": TT([v + dt_ for v in tb_])}, ident, {**case, "t": tb_, "previous_axis": ta, "params": pa})
         # ---- attenuated signal
         for kind in ("std", "range"):
             period = rng.choice([None, 2 * D, 3 * D + 1, 10 * D])
@@ -289,6 +305,16 @@ def run(ctx) -> None:
             for rm in (120000.0, 130000.0):
                 local("location-hop-diagonal", "qartod.location_test", {"lon": X(lon_d), "lat": X(lat_d), "range_max": rm}, "lat", lat_d, succ,
                       {"range_max": rm, "lon": lon_d})
+            # burst sampling faster than 1 Hz (several samples inside one whole second): still the point and its successor
+            tburst = [float(gen.T0) + 0.5 * k + (3.0 if k >= n // 2 else 0.0) for k in range(n)]
+            local("rate_of_change-subsecond-burst", "qartod.rate_of_change_test",
+                  {"inp": X(x), "tinp": gen.ftimes(tburst), "threshold": 0.01}, "inp", x, succ, {"t": tburst})
+            # irregular axis with outages longer than the window: the trailing TIME window decides who is a neighbour
+            for kind in ("std", "range"):
+                per_i = rng.choice([90, 200, 4000])
+                at_i = {"suspect_threshold": 1.1, "fail_threshold": 0.3, "check_type": kind, "test_period": per_i, "min_obs": rng.choice([1, 2])}
+                local(f"attenuated-{kind}-window-irregular", "qartod.attenuated_signal_test", {"inp": X(x), "tinp": TT(t), **at_i}, "inp", x,
+                      lambda p_: {i for i in range(n) if t[i] - per_i < t[p_] <= t[i]}, {**at_i, "t": t})
             # (the neighbourhood of a rate is positional: the point and the next row, whatever the order of the stamps)
             local("rate_of_change-descending-axis", "qartod.rate_of_change_test", {"inp": X(x), "tinp": TT(t[::-1]), "threshold": 0.01}, "inp", x, succ)
             local("spike", "qartod.spike_test", {"inp": X(x), "suspect_threshold": 0.2, "fail_threshold": 2,
